@@ -152,6 +152,7 @@ type ClientState struct {
 	endOnce         sync.Once            // only end once
 	isTakenOver     atomic.Bool          // used to identify orphaned clients
 	packetID        uint32               // the current highest packetID
+	packetIDLock    sync.Mutex           // serialises packet id allocation (not the client mutex, which is held during network writes)
 	open            context.Context      // indicate that the client is open for packet exchange
 	cancelOpen      context.CancelFunc   // cancel function for open context
 	outboundQty     int32                // number of messages currently in the outbound queue
@@ -283,8 +284,8 @@ func (cl *Client) refreshDeadline(keepalive uint16) {
 // If no unused packet ids are available, an error is returned and the client
 // should be disconnected.
 func (cl *Client) NextPacketID() (i uint32, err error) {
-	cl.Lock()
-	defer cl.Unlock()
+	cl.State.packetIDLock.Lock()
+	defer cl.State.packetIDLock.Unlock()
 
 	i = atomic.LoadUint32(&cl.State.packetID)
 	started := i
